@@ -232,6 +232,7 @@ func checkC01(c *Ctx) {
 	c01OneAnswer(c)
 	c01FreshBuffer(c)
 	c01RecoverAnswers(c)
+	c16Version(c) // the initialize answer is computed from the request's own version, not from a shared member
 	c01ClassifyByPresence(c) // an answer whose result is null is still that call's answer
 	poolResetRule(c, "R-pool-reset") // an answer is computed from its own request's arguments only
 	// "for every answer size": no reader of a peer's stream has a line limit an ordinary answer exceeds
